@@ -512,6 +512,24 @@ class Interp:
         if isinstance(s, ast.For):
             it = self.eval(s.iter, st)
             item = self.iterate(it, s.iter, st)
+            # a loop over a constant table (a literal tuple / list, or a module-level constant the function does not
+            # shadow): executed element by element, in order - a table-driven sequence of replacements is the same steps as
+            # the statements written out
+            fields = it.fields
+            literal = isinstance(s.iter, (ast.Tuple, ast.List)) or (isinstance(s.iter, ast.Name) and s.iter.id not in st.env)
+            if literal and it.kinds <= frozenset(["tuple", "list"]) and fields and it.oid is None \
+                    and sorted(fields) == list(range(len(fields))) and len(fields) <= 12:
+                cur, brk = st.fork(), None
+                for i in range(len(fields)):
+                    self.assign(s.target, fields[i], cur, s)
+                    f = self.exec_block(s.body, cur)
+                    brk = join_states(brk, f.brk)
+                    cur = join_states(f.normal, f.cont)
+                    if cur is None:
+                        break
+                if s.orelse and cur is not None:
+                    cur = self.exec_block(s.orelse, cur).normal
+                return Flow(join_states(brk, cur))
         else:
             item = None
         entry = st
